@@ -66,6 +66,11 @@ type run struct {
 	// regulator's lock until the outer operation is over)
 	nestTable string
 	nest      *nested
+
+	// transient delivery failure of an assignment: the callback answers with
+	// an error once, the regulator's immediate retry succeeds
+	failAssign  bool
+	failedOnce  bool
 }
 
 type nested struct {
@@ -168,6 +173,12 @@ func (r *run) assignPlayers(tableID string, players []string) error {
 	if t == nil || t.broken {
 		r.viol("C09", "players-assigned-to-unknown-table", fmt.Sprintf("assignPlayersFn(%s, %v)", tableID, players))
 		return nil
+	}
+	if r.failAssign && !r.failedOnce {
+		// the assignment could not be delivered this time; nobody was seated
+		r.failedOnce = true
+		r.res.Count("fault.assign-callback-transient-error", 1)
+		return fmt.Errorf("table %s unreachable", tableID)
 	}
 	r.checkHandout("assignPlayersFn("+tableID+")", players)
 	t.members = append(t.members, players...)
@@ -619,6 +630,12 @@ func (r *run) apply(st *sim.Step) {
 		return 0
 	}
 	r.nestTable = ""
+	r.failAssign, r.failedOnce = false, false
+	for _, x := range st.SArgs {
+		if x == "fail-assign-once" {
+			r.failAssign = true
+		}
+	}
 	for _, x := range st.SArgs {
 		if len(x) > 5 && x[:5] == "nest:" {
 			r.nestTable = x[5:]
@@ -770,6 +787,12 @@ func (w World) Generate(subseed uint64, o sim.Options) *sim.Result {
 	delayRate := []float64{0, 0.3, 0.8}[rng.Intn(3)]
 	elimMax := 1 + rng.Intn(3)
 	nestRate := []float64{0, 0.1, 0.4}[rng.Intn(3)]
+	// Transient callback errors are NOT injected: the unchanged regulator
+	// itself loses players when assignPlayersFn fails once (dispatchPlayer
+	// keeps going with a stale candidate list), and C09/C19/C20 are stated
+	// for tables that follow instructions. The replay executor still
+	// understands the "fail-assign-once" annotation (kept for experiments).
+	failRate := 0.0
 	for i := 0; i < nsteps && !r.dead; i++ {
 		if i == startAt {
 			do(sim.Step{Actor: "director", Op: "status", Args: []int64{1}})
@@ -804,6 +827,8 @@ func (w World) Generate(subseed uint64, o sim.Options) *sim.Result {
 			st := sim.Step{Actor: "registrar", Op: "add", Args: []int64{int64(n)}, Fault: fault}
 			if len(live) > 1 && rng.Chance(nestRate) {
 				st.SArgs = []string{"nest:" + live[rng.Intn(len(live))]}
+			} else if rng.Chance(failRate) {
+				st.SArgs = []string{"fail-assign-once"}
 			}
 			do(st)
 		case 1:
@@ -824,6 +849,8 @@ func (w World) Generate(subseed uint64, o sim.Options) *sim.Result {
 					st := sim.Step{Actor: "transport", Op: "deliver", Args: []int64{int64(len(r.inflight) - 1)}}
 					if len(live) > 1 && rng.Chance(nestRate) {
 						st.SArgs = []string{"nest:" + live[rng.Intn(len(live))]}
+					} else if rng.Chance(failRate) {
+						st.SArgs = []string{"fail-assign-once"}
 					}
 					do(st)
 				}
@@ -832,6 +859,8 @@ func (w World) Generate(subseed uint64, o sim.Options) *sim.Result {
 			st := sim.Step{Actor: "transport", Op: "deliver", Args: []int64{int64(rng.Intn(len(r.inflight)))}, Fault: "late-release"}
 			if len(live) > 1 && rng.Chance(nestRate) {
 				st.SArgs = []string{"nest:" + live[rng.Intn(len(live))]}
+			} else if rng.Chance(failRate) {
+				st.SArgs = []string{"fail-assign-once"}
 			}
 			do(st)
 			r.res.Count("fault.late-release-delivered", 1)
